@@ -396,6 +396,17 @@ pub fn run(ctx: &Ctx) {
             .boxed()
     });
     ctx.search(&BytesRoundtrip, n, || metagen::rlist_strategy().prop_map(|blocks| BytesCase { blocks }).boxed());
+    // the 24-bit size limit, from the byte side: padding blocks whose body is exactly at / just
+    // below 2^24 - 1 bytes are accepted by the reader and must be writable again
+    let si = RBlock::Streaminfo { min_bs: 4096, max_bs: 4096, min_fs: 0, max_fs: 0, rate: 44100, channels: 2, bps: 16, total: 0, md5: [0; 16] };
+    let mut limit_cases = vec![];
+    for k in [0u32, 1, 2, 3, 4, 7, 8, 9] {
+        let pad = RBlock::Padding { len: (1 << 24) - 1 - k, fill: 0 };
+        limit_cases.push(BytesCase { blocks: vec![si.clone(), pad.clone()] });
+        limit_cases.push(BytesCase { blocks: vec![si.clone(), pad.clone(), RBlock::Application { id: 0x41424344, data: vec![1, 2, 3] }] });
+        limit_cases.push(BytesCase { blocks: vec![si.clone(), RBlock::Application { id: 0x41424344, data: vec![] }, pad] });
+    }
+    ctx.run_cases(&BytesRoundtrip, &limit_cases);
     let n = match (t, checked) {
         (Tier::Quick, _) => 1_500,
         (Tier::Thorough, _) => 30_000,
